@@ -106,7 +106,7 @@ class World:
 
     def new_id(self, unsafe_ok=False):
         r = self.rng.random()
-        if unsafe_ok and r < 0.04:
+        if unsafe_ok and r < 0.10:
             return self.rng.choice(G.IDS_JSON_UNSAFE)
         return self.rng.choice(G.IDS)
 
